@@ -14,7 +14,8 @@ import (
 // completion and every delivered event runs on the single listener goroutine,
 // as the real adapter does. All calls are appended to the world's boundary log.
 type MockMQ struct {
-	w *World
+	closeEvent *closeEvent // delivered from within Close (see DeliverDuringClose)
+	w          *World
 
 	mu        sync.Mutex
 	connected bool
@@ -102,9 +103,35 @@ func (m *MockMQ) Close() {
 	quit := m.quit
 	m.tasks = nil
 	m.w.logMQ(LogEntry{Kind: "mq_close"})
+	// A messaging client keeps delivering what it has received until Close
+	// returns: one last event may be handed to its callback from within Close.
+	if ev := m.closeEvent; ev != nil {
+		m.closeEvent = nil
+		i := strings.LastIndexByte(ev.Subject, '.')
+		if i > 0 {
+			if s, ok := m.subs[ev.Subject[:i]]; ok && s.live {
+				m.w.logMQ(LogEntry{Kind: "mq_ev", Subject: ev.Subject, Payload: ev.Data})
+				subject, payload := ev.Subject, ev.Data
+				tasks <- func() { s.cb(subject, payload, nil) }
+			}
+		}
+	}
 	m.mu.Unlock()
 	close(tasks)
 	<-quit
+}
+
+// DeliverDuringClose arranges for one event to be delivered from within the
+// next Close call.
+func (m *MockMQ) DeliverDuringClose(subject string, payload []byte) {
+	m.mu.Lock()
+	m.closeEvent = &closeEvent{subject, payload}
+	m.mu.Unlock()
+}
+
+type closeEvent struct {
+	Subject string
+	Data    []byte
 }
 
 // SetClosedHandler implements mq.Client.
